@@ -37,7 +37,10 @@ ASSUMPTIONS = [
 PROBES = ["add_to_unterminated_document", "replace_field_that_has_comments",
           "delete_last_field_of_unterminated_document", "key_given_in_other_case",
           "failing_op_leaves_document_unchanged", "gc_step", "handles_dropped_and_refetched", "step_without_observation",
-          "file_object_dropped_paragraph_kept", "set_through_set_field_methods"]
+          "file_object_dropped_paragraph_kept", "set_through_set_field_methods",
+          "view_without_auto_resolve", "multi_line_value_through_set_field_from_raw_string",
+          "key_object_taken_from_iteration", "same_call_repeated",
+          "name_token_as_key", "name_token_of_a_replaced_or_deleted_field_as_key"]
 
 
 def generate(seed, run, tier):
